@@ -434,7 +434,7 @@ func init() {
 			return append(append(us, us2...), us3...), append(append(es, es2...), es3...)
 		},
 		Select: func(n string) bool {
-			return rePosSpace.MatchString(n) || strings.Contains(n, "RestoreFile") || reRestoreEntry.MatchString(n)
+			return rePosSpace.MatchString(n) || strings.Contains(n, "RestoreFile") || reRestoreEntry.MatchString(n) || strings.HasSuffix(n, "#tape:position_taken_at_its_token")
 		},
 		Siblings: "C03 (fields), C04 (tape), C06 (duplicates), C11 (maps)",
 		Assumptions: []string{
